@@ -339,6 +339,19 @@ class RelayMode(vlib.Mode):
                 nj = st.get("joined", 0)
                 if nj:
                     case.append(f"close n{rng.randrange(nj)}"); case.append("sync")
+        if rng.random() < 0.4:
+            # a fresh, perfectly good code presented on a path that is NOT the one it was issued for: extra segments, doubled or missing
+            # slashes, the topic as a prefix of the segment, another prefix — admitted only where the path's topic is exactly the token's
+            # (no doubled slashes: net/http's mux answers those with a 301 redirect before the relay sees them)
+            now = st["now"]
+            t = rng.choice(TOPICS[:3])
+            for _ in range(rng.choice([1, 2, 3])):
+                case.append(f"session {tok(now, topic=sval(t), bid=sval('b-path'), scopes=lval(rng.choice([['read', 'write'], ['read'], ['write']])))} {hx(t)}")
+                st["codes"].append(t)
+                tmpl = rng.choice(["/session/{t}/more", "/session/{t}/side/x", "/session/{t}/", "/session/{t}x", "/session/x{t}",
+                                   "/session/{t}.x", "/session/{t}/{t}", "/shell/{t}", "/Session/{t}", "/session/{t}", "/session/{t}/more"])
+                case.append(f"ws {hx(tmpl.format(t=t))} c{len(st['codes']) - 1}")
+            case.append("members")
         # The relay's expiry timers run on REAL time while the cases run on a virtual clock: a connection admitted within a few (virtual)
         # seconds of its token's expiry would really be closed a moment later — or, at exp - now == 0, at once, racing with the very
         # observation of the admission. Such admissions are the business of the real-time expiry mode (C06); here every websocket
